@@ -120,8 +120,18 @@ func scenarioC05(r *Run) {
 		// an establishment that is rejected after resources were taken
 		if r.Ch.Choose(4, "rejected-est") == 1 {
 			bad := g.Session(p, SessShape{UEAlloc: true, TEIDChoose: true})
-			// the second PDR pair cannot be parsed: FAR without a usable apply action comes last
-			bad.FARs = append(bad.FARs, &FARSpec{ID: 7, Action: 0})
+			if r.Ch.Choose(2, "rej-kind") == 0 {
+				// a FAR without a usable apply action comes after valid PDRs
+				bad.FARs = append(bad.FARs, &FARSpec{ID: 7, Action: 0})
+			} else {
+				// the PDR that asks for the UE address fails to parse after the
+				// address was taken: it names an application that is not provisioned
+				for _, x := range bad.PDRs {
+					if x.SrcIface == IfCore {
+						x.AppID = "no-such-application"
+					}
+				}
+			}
 			res := p.Establish(bad)
 			r.Op("cycle %d: establishment with an invalid FAR after valid PDRs -> accepted=%v cause=%d", c, res.Accepted, res.Cause)
 			r.Skel("rejected-est")
